@@ -1127,7 +1127,16 @@ PROP = Prop(
           "and with two role arguments, value_nth_person at 0/1/last/beyond, first person, value_from_person for unique "
           "and non-unique roles, project with and without role (integer and boolean arrays, dtypes float64/float32/"
           "int64/int32), has_role, get_rank with distinct criteria (binding) and tied criteria (permutation-consistency "
-          "only), 15 projector chains; the RANK STREAM LEAVES THE SMALL LATTICE ON PURPOSE: on every population one get_rank "
+          "only), 15 projector chains; any / all on integer arrays and min / max on boolean arrays; value_from_partner for "
+          "every role with exactly two sub-roles (others refused); value_nth_person / value_from_first_person after "
+          "members_position has been ASSIGNED to a random permutation inside each group; attributes that are not "
+          "projectable (project) and CALLED projectors (a variable per entity, set_input + projector(name, period)) at the "
+          "end of chains; on every 2nd population a SECOND group entity over the same persons (nested or arbitrary, own role "
+          "table, containing_entities declared one way, the other, both or not) with 20 chains of 1..5 projectors through "
+          "the containing-entity shortcut; the adapter spells each call at random (role positional / keyword, Role via "
+          "get_role(key), default= omitted when 0, get_rank given person.household or the population with no / scalar / "
+          "array condition, populations of the CLONED simulation in 10% of the populations, members_role left unset when "
+          "everybody holds the first role); the RANK STREAM LEAVES THE SMALL LATTICE ON PURPOSE: on every population one get_rank "
           "line, and on every 4th a population of 1..5 groups of 2..5 members with get_rank for each criterion dtype the API "
           "accepts (int32, int64, float64, float32), with and without condition, whose criteria are per-group clusters of "
           "adjacent integers above 2**24 (dates coded YYYYMMDD, cents around 2e9, 2**24, 2**31-1, 2**40, 10**15, 2**53-6; "
@@ -1144,10 +1153,12 @@ PROP = Prop(
         "numpy.argsort is modelled as a stable sort; the results of the modelled operations do not depend on the order among equal keys (at most one selected person per group), and the tie order of get_rank is outside the claim domain",
         "values are exact integers / booleans (float32/float64/int32/int64 arrays of small integers); rounding, overflow and NaN propagation are not modelled",
         "claim domain: >= 1 person, group indices < count, array sizes matching; outside it the model still answers (errors included) and is compared",
+        "`any` is computed as sum > 0: the oracle states it for boolean and non-negative integer arrays; on signed integer arrays whose values cancel the code answers False where some value is non-zero (compared with the model, reported as an observation, not stated by the oracle)",
     ],
     level_text=("T-full on the model: every aggregate / projection / position / rank / chain clause of the statement is a "
-                "theorem for all population sizes and membership maps (17 theorems, incl. independence from numpy's unstable "
-                "argsort order and the refusal branches); the numpy primitives are modelled and tied by the correspondence; "
+                "theorem for all population sizes and membership maps (20 theorems, incl. independence from numpy's unstable "
+                "argsort order, assigned member positions, the partner projection, chains through several group entities "
+                "and the containing-entity shortcut, and the refusal branches); the numpy primitives are modelled and tied by the correspondence; "
                 "tie order of get_rank and the raw ordered_members_map are compared but not binding. F-C10 (bincount without "
                 "minlength) is repaired in the modelled code and sits in the corpus."),
     exhaustive_note="thorough: all membership maps of 1..5 persons into 1..3 groups with 2 roles (10 756 populations x 36 operations)",
